@@ -205,7 +205,9 @@ def run_check(mod, tier, seed, workers=None, replay=None, max_cases=None):
         "violations": len(fresh),
         "verdict": "violated" if fresh else ("inconclusive" if reason else "held"),
     }
-    if not replay:
+    # evidence describes the tree under test at /repo: runs against scratch copies (self-test mutants, seeded
+    # changes: VERIF_REPO points elsewhere) and replays never write it
+    if not replay and not os.environ.get("VF_NO_EVIDENCE") and os.path.realpath(REPO) == os.path.realpath("/repo"):
         os.makedirs(os.path.join(HERE, "evidence"), exist_ok=True)
         with open(os.path.join(HERE, "evidence", pid + ".json"), "w") as f:
             json.dump(evidence, f, indent=1, default=repr, sort_keys=True)
